@@ -6,4 +6,4 @@ cd "$(dirname "$0")"
 export CARGO_NET_OFFLINE=true
 python3 translate/gen.py /repo lean || true
 (cd lean && lake build Winter $(ls ../checks | sed -n 's/^C\([0-9]*\)\.json$/WinterProofs.C\1 drv_c\1/p'))
-(cd harness && cargo build --offline $(ls ../checks | sed -n 's/^C\([0-9]*\)\.json$/--bin c\1/p'))
+(cd harness && cargo build --offline --features genair $(ls ../checks | sed -n 's/^C\([0-9]*\)\.json$/--bin c\1/p'))
